@@ -7,6 +7,7 @@ import (
 	"encoding/base64"
 	"fmt"
 	"math/rand"
+	"strconv"
 
 	"verif/harness/internal/gcs"
 	"verif/harness/internal/j"
@@ -337,6 +338,11 @@ func genGcsProgram(r *rand.Rand, p gcsProfile) []gcs.Op {
 			}
 			prog = append(prog, op)
 		case x < p.wUpload+p.wResum+p.wPatch+p.wDelete+p.wRead+p.wCompose+p.wCopy:
+			if g.chance(0.4) { // a source whose metadata was updated (once or twice): the copy still starts at metageneration 1
+				for k := 1 + g.pick(2); k > 0; k-- {
+					prog = append(prog, gcs.Op{Ev: "Patch", B: b, N: n, Meta: []gcs.KVB{{K: j.S("rev"), V: j.S(strconv.Itoa(k))}}, Conds: gcs.NoConds()})
+				}
+			}
 			op := gcs.Op{Ev: "Copy", B: b, N: n, Db: g.bucket(), Dn: g.name(), Slash: g.chance(0.5)}
 			if g.chance(0.1) {
 				op.Db, op.Dn = b, n
